@@ -204,3 +204,22 @@ Theorem cut_pass_tolerates_witnesses : RAISE_BEFORE_START_FRAME = true ->
   tolerated (conn_init false 1000 4000 0) (peer_init 1000 4000) w_cut_count = true.
 Proof. exact cut_pass_tolerates. Qed.
 Print Assumptions cut_pass_tolerates_witnesses.
+
+(* The other direction holds in EVERY state, cut or not: whatever a pass writes is what is enforced afterwards and no limit
+   ever goes down -- the endpoint never enforces LESS than a value it has put on the wire, and Limit.sent /
+   max_stream_data_local_sent are only assigned when the frame is in the packet. *)
+Theorem cut_pass_writes_what_it_enforces : forall ft l b, 0 <= l_value l ->
+  let '(l', w, r) := raise_limit_b ft l b in
+  l_value l <= l_value l' /\ l_used l' = l_used l /\
+  Forall (fun x => x = W ft 0 (l_value l')) w /\
+  (w <> [] -> l_sent l' = l_value l') /\ (r = None -> w = [] /\ l_sent l' = l_sent l).
+Proof. exact raise_limit_b_sound. Qed.
+Print Assumptions cut_pass_writes_what_it_enforces.
+
+Theorem cut_pass_stream_frames_carry_enforced_limit : forall l, Forall (fun p => 0 <= sm_msd (snd p)) l -> forall b,
+  let '(l', w, r) := raise_streams_b l b in
+  Forall2 (fun p p' => fst p' = fst p /\ strm_le (snd p) (snd p')) l l' /\
+  Forall (fun x => match x with W ft a v => ft = FT_MAX_STREAM_DATA /\
+                     exists s', In (a, s') l' /\ v = sm_msd s' /\ sm_sent s' = v end) w.
+Proof. exact raise_streams_b_sound. Qed.
+Print Assumptions cut_pass_stream_frames_carry_enforced_limit.
